@@ -35,16 +35,36 @@ def norm_F(K, F):
     return [sorted(set(s % K['n'] for s in P)) for P in F]
 
 
-def observe_fair(kripke, K, F, naming):
+def observe_fair(kripke, K, F, naming, fshape='list-set'):
     nm = graphs.NAMINGS[naming]
     back = dict((nm(i), i) for i in range(K['n']))
-    res = kripke.get_fair_states([set(nm(i) for i in P) for P in F])
+    arg = mc.make_F(F, nm, fshape)
+    before = [set(P) for P in arg]
+    res = kripke.get_fair_states(arg)
+    if [set(P) for P in arg] != before:
+        return ('bad', 'the caller\'s F was modified')
     return mc.normalise(res, back)
+
+
+def with_extra_labels(inp):
+    """K plus labels named like the fair label the checkers generate ('fair', 'fair0', ...):
+    atoms the formula never mentions, which K may legitimately carry."""
+    K = inp['K']
+    ex = inp.get('extra_labels')
+    if not ex:
+        return K
+    names = ['fair', 'fair0', 'fair1', 'fairness', 'unfair']
+    labels = [list(l) for l in K['labels']]
+    for (st_, k) in ex:
+        nm_ = names[k % len(names)]
+        if nm_ not in labels[st_ % K['n']]:
+            labels[st_ % K['n']].append(nm_)
+    return dict(K, labels=labels)
 
 
 def check_fair_states(inp):
     """get_fair_states(F) = states from which some path visits every P infinitely often."""
-    K = inp['K']
+    K = with_extra_labels(inp)
     F = norm_F(K, inp['F'])
     naming, how = inp.get('naming', 'int'), inp.get('how', 0)
     M = ref.Model(K)
@@ -53,7 +73,7 @@ def check_fair_states(inp):
     kripke = km.to_lib(K, naming, how)
     before = km.snapshot(kripke)
     try:
-        obs = observe_fair(kripke, K, F, naming)
+        obs = observe_fair(kripke, K, F, naming, inp.get('fshape', 'list-set'))
     except Exception as e:
         return Failure('fair_states', inp, mc.show_mask(truth), 'raised %s: %s' % (type(e).__name__, e))
     d = km.snapshot_diff(before, km.snapshot(kripke))
@@ -79,7 +99,7 @@ def truths(M, top, masks):
 
 def check_mc(inp):
     """modelcheck(K, f, F=F) interprets A/E over fair paths and atoms as 'p and fair'."""
-    K = inp['K']
+    K = with_extra_labels(inp)
     checker = inp['checker']
     F = None if inp['F'] is None else norm_F(K, inp['F'])
     naming, how = inp.get('naming', 'int'), inp.get('how', 0)
@@ -88,7 +108,16 @@ def check_mc(inp):
     M = ref.Model(K)
     kripke = km.to_lib(K, naming, how)
     before = km.snapshot(kripke)
-    out = mc.call(checker, K, top, naming, how, form=inp.get('form', 'obj'), F=F, kripke=kripke)
+    fshape = inp.get('fshape', 'list-set')
+    out = mc.call(checker, K, top, naming, how, form=inp.get('form', 'obj'), F=F, kripke=kripke, fshape=fshape)
+    if F is not None and inp.get('again') and out[0] != 'bad':
+        # the same structure object asked with another F in between must answer as before
+        other = [sorted(set(range(K['n'])) - set(P)) for P in F] or [[0]]
+        mc.call(checker, K, top, naming, how, form=inp.get('form', 'obj'), F=other, kripke=kripke)
+        out3 = mc.call(checker, K, top, naming, how, form=inp.get('form', 'obj'), F=F, kripke=kripke, fshape=fshape)
+        if out3[:2] != out[:2]:
+            return Failure('mc', inp, mc.show(out), mc.show(out3),
+                           'the same call on the same structure object answers differently after a call with F=%s' % other)
     d = km.snapshot_diff(before, km.snapshot(kripke))
     if d:
         return Failure('mc', inp, 'structure unchanged', d, 'after %s.modelcheck with F' % checker)
@@ -231,9 +260,9 @@ def random_shard(st, shard, nshards, payload):
 
     @hs.composite
     def cases(draw):
-        K = draw(km.st_kripke(1, 4))
-        n = K['n']
         kind = draw(hs.sampled_from(['fair', 'CTL', 'CTL', 'LTL', 'CTLS', 'CTLS']))
+        K = draw(km.st_kripke(1, 6 if kind in ('fair', 'CTL') else 4))
+        n = K['n']
         Fk = draw(hs.sampled_from(['list', 'list', 'split', 'split', 'split', 'empty', 'all', 'none']))
         cands = []
         if Fk == 'split':
@@ -250,9 +279,13 @@ def random_shard(st, shard, nshards, payload):
         elif Fk == 'none':
             F = None
         else:
-            F = draw(hs.lists(hs.lists(hs.integers(0, n - 1), max_size=n, unique=True), min_size=1, max_size=2))
+            F = draw(hs.lists(hs.lists(hs.integers(0, n - 1), max_size=n, unique=True), min_size=1, max_size=4))
         base = {'K': K, 'F': F, 'naming': draw(hs.sampled_from(['int', 'str', 'tuple', 'mixed'])),
-                'how': draw(hs.integers(0, 5))}
+                'how': draw(hs.integers(0, 5)),
+                'fshape': draw(hs.sampled_from(['list-set', 'list-set', 'list-frozenset', 'tuple-set', 'tuple-frozenset'])),
+                'again': draw(hs.integers(0, 3)) == 0,
+                'extra_labels': draw(hs.lists(hs.tuples(hs.integers(0, 5), hs.integers(0, 4)).map(list), max_size=2))
+                if draw(hs.integers(0, 2)) == 0 else None}
         if kind == 'fair':
             if F is None:
                 base['F'] = []
@@ -271,6 +304,10 @@ def random_shard(st, shard, nshards, payload):
         kind = inp.pop('kind')
         M = ref.Model(inp['K'])
         cls = classify(M, masks_of(inp['K'], inp['F'])) if inp['F'] is not None else 'F=None'
+        if inp.get('extra_labels'):
+            st.bump('random: K already carries a label named fair/fair0/...')
+        if inp['F'] and len(inp['F']) >= 3:
+            st.bump('random: F with >= 3 sets')
         nt = cls.startswith('fair and unfair') and (kind == 'fair' or fm.temporal_count(fm.from_json(inp['f'])) > 0)
         st.random_case(inp, nt)
         st.bump('random %s, %s' % (inp.get('checker', 'get_fair_states'), cls))
@@ -286,7 +323,9 @@ def random_shard(st, shard, nshards, payload):
 
 def run(ctx):
     ctx.rule = ('K in S(1)+S(2) (strided in the quick tier), random <= 4 states under four state '
-                'namings; F = every list of <= 2 subsets of the states (incl. [], [S], [{}]) for '
+                'namings (random tier: <= 6 states for CTL and get_fair_states, F of up to 4 sets given as list/tuple of '
+                'set/frozenset and checked to be left unmodified, K optionally carrying labels named fair/fair0/.., the '
+                'same structure object re-asked after a call with another F); F = every list of <= 2 subsets of the states (incl. [], [S], [{}]) for '
                 'get_fair_states, a stride of them plus F=None for the checkers; formulas: CTL with '
                 '<= 1 operator, LTL A g and CTL* Q g with g <= 1 operator plus nested-quantifier '
                 'formulas; random formulas depth <= 3.  PRIMARY ORACLE: R-STAR with one extra Buchi '
